@@ -1044,11 +1044,11 @@ fn c13_end_to_end(ctx: &Ctx, sink: &mut Sink) -> Value {
     }
     let phc_args: Vec<String> = vec!["-r".into(), "PHC0".into(), "-i".into(), IFACE.into()];
     let scenarios = vec![
-        Scenario { name: "PHC configured and chronyd's reference, error bound attribute reads 12345", args: phc_args.clone(), chronyd: Some((ID_PHC, 0)), phc: PhcFile::Value(12345), preexisting: None, observe_ms: 2500 },
-        Scenario { name: "PHC configured and chronyd's reference, error bound attribute absent", args: phc_args.clone(), chronyd: Some((ID_PHC, 0)), phc: PhcFile::Absent, preexisting: None, observe_ms: 2500 },
-        Scenario { name: "PHC configured and chronyd's reference, error bound attribute appears after 1.5 s", args: phc_args.clone(), chronyd: Some((ID_PHC, 0)), phc: PhcFile::AppearsAfter(1500, 777), preexisting: None, observe_ms: 4500 },
-        Scenario { name: "PHC configured, chronyd's reference is another source, error bound attribute absent", args: phc_args.clone(), chronyd: Some((ID_OTHER, 0)), phc: PhcFile::Absent, preexisting: None, observe_ms: 2500 },
-        Scenario { name: "PHC not configured, chronyd's reference is the PHC", args: vec![], chronyd: Some((ID_PHC, 0)), phc: PhcFile::Value(12345), preexisting: None, observe_ms: 2500 },
+        Scenario { name: "PHC configured and chronyd's reference, error bound attribute reads 12345", args: phc_args.clone(), chronyd: Some((ID_PHC, 0)), phc: PhcFile::Value(12345), preexisting: None, observe_ms: 2500, ..Scenario::blank() },
+        Scenario { name: "PHC configured and chronyd's reference, error bound attribute absent", args: phc_args.clone(), chronyd: Some((ID_PHC, 0)), phc: PhcFile::Absent, preexisting: None, observe_ms: 2500, ..Scenario::blank() },
+        Scenario { name: "PHC configured and chronyd's reference, error bound attribute appears after 1.5 s", args: phc_args.clone(), chronyd: Some((ID_PHC, 0)), phc: PhcFile::AppearsAfter(1500, 777), preexisting: None, observe_ms: 4500, ..Scenario::blank() },
+        Scenario { name: "PHC configured, chronyd's reference is another source, error bound attribute absent", args: phc_args.clone(), chronyd: Some((ID_OTHER, 0)), phc: PhcFile::Absent, preexisting: None, observe_ms: 2500, ..Scenario::blank() },
+        Scenario { name: "PHC not configured, chronyd's reference is the PHC", args: vec![], chronyd: Some((ID_PHC, 0)), phc: PhcFile::Value(12345), preexisting: None, observe_ms: 2500, ..Scenario::blank() },
     ];
     let results: Vec<Result<Value, String>> = std::thread::scope(|s| {
         let hs: Vec<_> = scenarios.iter().map(|sc| { let bin = bin.clone(); s.spawn(move || e2e::run_scenario(&bin, sc)) }).collect();
